@@ -41,8 +41,9 @@ Bogus == -2
 (* o.bodies Seq([c, d, knd, ...])  c: cursor of the last id'd event that had  *)
 (*          been transmitted COMPLETELY (through its blank line) when this    *)
 (*          body ended, over all bodies so far; d: the same, also counting an *)
-(*          event whose last content line had been transmitted when the body  *)
-(*          was cut; knd: "err" | "eof" | "none" (not cut)                    *)
+(*          event whose last content line had been transmitted when this body *)
+(*          ended cleanly (only its blank line is missing);                   *)
+(*          knd: "err" | "eof" | "none" (not cut)                             *)
 (* o.recon  Seq([sent, outs])      reconnect i follows body i: the cursor in  *)
 (*          its Last-Event-ID header, the answers the attempts got            *)
 (* o.rd     messages returned by Connection.Read (index, -1 = not a message   *)
@@ -91,11 +92,13 @@ NoTruncatedSurfaced(o) ==
   /\ \A i \in 1..Len(o.notes) : o.notes[i] # -1
   /\ o.outcome = "resp" => o.respok
 
-\* every reconnect carries the id of the last event received completely (an event whose
-\* content had arrived in full when the body ended may or may not count)
+\* every reconnect carries the id of the last event received completely.  An event whose
+\* content had arrived in full when a body ended cleanly may or may not count; a client that
+\* counted it keeps that cursor on later reconnects until a later id supersedes it.
+GoodCursors(o, i) == {o.bodies[i].c} \cup {o.bodies[k].d : k \in {j \in 1..i : o.bodies[j].d >= o.bodies[i].c}}
 ResumeCursor(o) ==
   /\ Len(o.recon) <= Len(o.bodies)
-  /\ \A i \in 1..Len(o.recon) : o.recon[i].sent \in {o.bodies[i].c, o.bodies[i].d}
+  /\ \A i \in 1..Len(o.recon) : o.recon[i].sent \in GoodCursors(o, i)
 
 Complete(o) ==
   IF o.kind = "post"
@@ -225,7 +228,7 @@ BodyRec(es, cut) ==
   LET n == IF cut.cls = "none" THEN Len(es) ELSE cut.n
       cPrev == IF bodies = <<>> THEN None ELSE bodies[Len(bodies)].c
       c == MaxOf({cPrev} \cup ({es[i].cur : i \in 1..n} \ {None}))
-      d == IF cut.cls = "datafull" /\ es[n + 1].cur # None THEN MaxOf({c, es[n + 1].cur}) ELSE c
+      d == IF cut.cls = "datafull" /\ cut.knd = "eof" /\ es[n + 1].cur # None THEN MaxOf({c, es[n + 1].cur}) ELSE c
   IN [from |-> from, primed |-> primed, n |-> cut.n, cls |-> cut.cls, knd |-> cut.knd, al |-> cut.al,
       c |-> c, d |-> d]
 
